@@ -52,6 +52,9 @@ INDEX_POSITION_FORMS = {
 # catalogue forms (operators / attribute setters: no parameter names) that pass a bare number where a quantity is meant
 BARE_POSITIONAL_FORMS = {("ndarray.__imod__", "base"), ("ndarray.real", "assign"), ("ndarray.imag", "assign")}
 
+# floor / remainder of a dimensional quantity by a pure number (or vice versa) rounds in the current unit
+FLOOR_FAMILY = {"ndarray.__floordiv__", "ndarray.__ifloordiv__", "ndarray.__mod__", "ndarray.__imod__", "ndarray.__divmod__"}
+
 RULE2_EXEMPT_FUNCS = {
     "ndarray.__ipow__": "power changes the dimension", "ndarray.__imul__": "product", "ndarray.__itruediv__": "quotient",
     "ndarray.__ifloordiv__": "quotient", "ndarray.__imatmul__": "product",
@@ -169,12 +172,12 @@ def classify(t, call):
         return "view-as-base-class", "view-as-base-class"
     if (fn, t.form) in INDEX_POSITION_FORMS:
         return "quantity-in-index-position", "quantity-in-index-position"
-    # an operand deliberately passed without its unit
-    if "mixed-bare" in t.tags or ("bare" in t.form and not t.form.startswith("out:bare")) or (fn, t.form) in BARE_POSITIONAL_FORMS:
+    # an operand deliberately passed without its unit: a fair question only where operands have independent dimensions
+    # (bilinear products, histogram coordinates): the plain operand is then a pure number that stays as it is
+    bare_operand = ("mixed-bare" in t.tags or ("bare" in t.form and not t.form.startswith("out:bare")) or (fn, t.form) in BARE_POSITIONAL_FORMS
+                    or any(q.bare and q.role != "out" for _, q in call.leaves()))
+    if bare_operand and (fn in FLOOR_FAMILY or not ("independent-operands" in t.tags or ("product" in t.tags and (fn, t.form) not in BARE_POSITIONAL_FORMS))):
         return "operand-passed-bare", "operand-passed-bare"
-    for _, q in call.leaves():
-        if q.bare and q.role != "out":
-            return "operand-passed-bare", "operand-passed-bare"
     r1 = r2 = None
     if fn in UNIT_RELATIVE:
         r1 = "unit-relative-function"
